@@ -3,9 +3,13 @@ mod codec;
 mod effects;
 mod expr;
 mod kem;
+mod latesender;
+mod nodevec;
 mod pathreq;
+mod privgen;
 mod ratchet;
 mod resume;
+mod transcript;
 mod treemath;
 mod window;
 
@@ -25,6 +29,10 @@ fn main() {
         "ratchet" => ratchet::run(&a[2], &a[3]),
         "admission" => admission::run(&a[2], &a[3]),
         "resume" => resume::run(&a[2], &a[3]),
+        "privgen" => privgen::run(&a[2], &a[3]),
+        "nodevec" => nodevec::run(&a[2], &a[3]),
+        "transcript" => transcript::run(&a[2], &a[3]),
+        "latesender" => latesender::run(&a[2], &a[3]),
         _ => std::process::exit(2),
     }
 }
